@@ -257,6 +257,9 @@ def gen_program(r):
     names = [gen_name(r) or 'n', r.choice(['plain', 'with space', 'q"uote', 'back\\slash', 'é', 'a&b', '中', 'x/y'])]
     enc = [mutf7.encode(n) for n in names]
     subj = r.choice([b'hello', b'two words', b'q"x', b'', b'caf\xc3\xa9'.decode('utf-8').encode('ascii', 'ignore') or b'cafe'])
+    if r.random() < 0.3:
+        # around the limit on the length of an ordinary string argument: refused or accepted, but the same however it is spelled
+        subj = b'a' * r.choice([4095, 4096, 4097, 5000])
     # now and then longer than any limit that applies to ordinary string arguments (4096), but not to a message
     msg = b'Subject: hello two words q"x\r\n\r\nbody\r\n' + (b'0123456789abcdef' * r.choice([300, 1300]) + b'\r\n' if r.random() < 0.4 else b'')
     prog = [
